@@ -527,6 +527,20 @@ class SymSp:
 
     __matmul__ = dot
 
+    def maximum(self, other):
+        if isinstance(other, SymSp):
+            raise Unsupported('sparse.maximum(sparse)')
+        if not _is_const_zero(other):
+            raise Unsupported('sparse.maximum(non-zero scalar)')
+        fmt = self.format if self.format in ('csr', 'csc') else 'csr'
+        return self._scaled(lambda c: core.ite(c < 0, _zero(self.ldt), c) if isinstance(c, SVal) else max(c, _zero(self.ldt)), self.ldt, fmt)
+
+    def minimum(self, other):
+        if isinstance(other, SymSp) or not _is_const_zero(other):
+            raise Unsupported('sparse.minimum beyond the zero scalar')
+        fmt = self.format if self.format in ('csr', 'csc') else 'csr'
+        return self._scaled(lambda c: core.ite(c > 0, _zero(self.ldt), c) if isinstance(c, SVal) else min(c, _zero(self.ldt)), self.ldt, fmt)
+
     def _compare(self, other, op):
         d = self.toarray()
         r = getattr(d, op)(other.toarray() if isinstance(other, SymSp) else other)
